@@ -16,7 +16,7 @@ Local Open Scope nat_scope.
 """
 
 
-class Boom(Exception):
+class Boom(KeyError):       # (the library handles KeyError of its own dictionary lookups: the user's must pass through)
     pass
 
 
